@@ -33,11 +33,11 @@ namespace {
     // components (docs/web/tensors.md "Special values of the st2tost2 class")
     f4::cmp(c, C4::Id(), Is, N, SYM, SYM, exactTol(1), "C02.st2tost2.Id", "Id");
     f4::cmp(c, C4::IxI(), II, N, SYM, SYM, exactTol(1), "C02.st2tost2.IxI", "IxI");
-    f4::cmp(c, C4::J(), J, N, SYM, SYM, 2 * u, "C02.st2tost2.J", "J");
-    f4::cmp(c, C4::K(), K, N, SYM, SYM, 2 * u, "C02.st2tost2.K", "K");
-    f4::cmp(c, C4::M(), M, N, SYM, SYM, 2 * u, "C02.st2tost2.M", "M");
+    f4::cmp(c, C4::J(), J, N, SYM, SYM, 32 * u, "C02.st2tost2.J", "J");
+    f4::cmp(c, C4::K(), K, N, SYM, SYM, 32 * u, "C02.st2tost2.K", "K");
+    f4::cmp(c, C4::M(), M, N, SYM, SYM, 32 * u, "C02.st2tost2.M", "M");
     // defining actions
-    const R tol = 32 * u * nS + tiny;
+    const R tol = 512 * u * nS + tiny;
     cmpS(c, S(C4::Id() * s), Sm, tol, "C02.st2tost2.Id", "Id:s = s");
     cmpS(c, S(C4::IxI() * s), ref::trace(Sm) * M3::Id(), tol, "C02.st2tost2.IxI",
          "IxI:s = tr(s) I");
@@ -46,9 +46,9 @@ namespace {
     cmpS(c, S(C4::K() * s), ref::dev(Sm), tol, "C02.st2tost2.K", "K:s = dev(s)");
     // M: sigmaeq^2 = s:M:s
     const R seq = ref::vonMises(Sm);
-    c.close(s | (C4::M() * s), seq * seq, 64 * u * nS * nS + tiny, "C02.st2tost2.M",
+    c.close(s | (C4::M() * s), seq * seq, 256 * u * nS * nS + tiny, "C02.st2tost2.M",
             "s:M:s = sigmaeq^2");
-    c.close((s * C4::M()) | s, seq * seq, 64 * u * nS * nS + tiny, "C02.st2tost2.M",
+    c.close((s * C4::M()) | s, seq * seq, 256 * u * nS * nS + tiny, "C02.st2tost2.M",
             "(s:M):s = sigmaeq^2");
   }
 
@@ -68,39 +68,39 @@ namespace {
     const R nC = ref::norm(Cr), nD = ref::norm(Dr), nS = ref::norm(Sm), nS2 = ref::norm(S2);
     c.nontrivial(N >= 2 && nC > 0 && (nS > 0 || nD > 0));
     // (C:s)_ij = C_ijkl s_kl
-    cmpS(c, S(C * s), ref::ddot(Cr, Sm), 64 * u * nC * nS + tiny, "C02.st2tost2.apply", "C*s");
+    cmpS(c, S(C * s), ref::ddot(Cr, Sm), 256 * u * nC * nS + tiny, "C02.st2tost2.apply", "C*s");
     // (s:C)_kl = s_ij C_ijkl, both spellings
-    cmpS(c, S(s * C), ref::ddot(Sm, Cr), 64 * u * nC * nS + tiny, "C02.st2tost2.apply_left",
+    cmpS(c, S(s * C), ref::ddot(Sm, Cr), 256 * u * nC * nS + tiny, "C02.st2tost2.apply_left",
          "s*C");
-    cmpS(c, S(s | C), ref::ddot(Sm, Cr), 64 * u * nC * nS + tiny, "C02.st2tost2.apply_left",
+    cmpS(c, S(s | C), ref::ddot(Sm, Cr), 256 * u * nC * nS + tiny, "C02.st2tost2.apply_left",
          "s|C");
     // (C:D)_ijkl = C_ijmn D_mnkl
-    f4::cmp(c, C4(C * D), ref::ddot(Cr, Dr), N, SYM, SYM, 64 * u * nC * nD + tiny,
+    f4::cmp(c, C4(C * D), ref::ddot(Cr, Dr), N, SYM, SYM, 256 * u * nC * nD + tiny,
             "C02.st2tost2.product", "C*D");
     // transpose: major transposition C_klij
     f4::cmp(c, C4(transpose(C)), ref::transpose(Cr), N, SYM, SYM, exactTol(nC), "C02.st2tost2.transpose",
             "transpose(C)");
-    cmpS(c, S(transpose(C) * s), ref::ddot(Sm, Cr), 64 * u * nC * nS + tiny,
+    cmpS(c, S(transpose(C) * s), ref::ddot(Sm, Cr), 256 * u * nC * nS + tiny,
          "C02.st2tost2.transpose", "transpose(C)*s = s:C");
     // dyadic product
-    f4::cmp(c, C4(s ^ s2), ref::otimes(Sm, S2), N, SYM, SYM, 8 * u * nS * nS2 + tiny,
+    f4::cmp(c, C4(s ^ s2), ref::otimes(Sm, S2), N, SYM, SYM, 128 * u * nS * nS2 + tiny,
             "C02.st2tost2.dyadic", "s1^s2");
     // linear combinations
-    f4::cmp(c, C4(C + D), Cr + Dr, N, SYM, SYM, 8 * u * (nC + nD) + tiny, "C02.st2tost2.lincomb",
+    f4::cmp(c, C4(C + D), Cr + Dr, N, SYM, SYM, 128 * u * (nC + nD) + tiny, "C02.st2tost2.lincomb",
             "C+D");
-    f4::cmp(c, C4(2 * C - D), R(2) * Cr - Dr, N, SYM, SYM, 8 * u * (2 * nC + nD) + tiny,
+    f4::cmp(c, C4(2 * C - D), R(2) * Cr - Dr, N, SYM, SYM, 128 * u * (2 * nC + nD) + tiny,
             "C02.st2tost2.lincomb", "2C-D");
     f4::cmp(c, C4(-C), R(-1) * Cr, N, SYM, SYM, exactTol(nC), "C02.st2tost2.lincomb", "-C");
     // scalar functions documented in ST2toST2Concept.hxx
     R tr = 0;
     for (int I = 0; I < f4::dimOf(N, SYM); ++I) tr += ref::componentOf(Cr, I, SYM, I, SYM);
-    c.close(trace(C), tr, 32 * u * nC + tiny, "C02.st2tost2.trace", "trace(C)");
+    c.close(trace(C), tr, 512 * u * nC + tiny, "C02.st2tost2.trace", "trace(C)");
     if (nC * nC > static_cast<R>(std::numeric_limits<T>::min()) * 1e6L &&
         nC * nC < static_cast<R>(std::numeric_limits<T>::max()) * 1e-6L) {
-      c.close(norm(C), nC, 64 * u * nC + tiny, "C02.st2tost2.norm", "norm(C)");
+      c.close(norm(C), nC, 256 * u * nC + tiny, "C02.st2tost2.norm", "norm(C)");
       R qd = 0;
       REF_FOR4 qd += Cr(i, j, k, l) * Dr(k, l, i, j);
-      c.close(quaddot(C, D), qd, 128 * u * nC * nD + tiny, "C02.st2tost2.quaddot",
+      c.close(quaddot(C, D), qd, 512 * u * nC * nD + tiny, "C02.st2tost2.quaddot",
               "quaddot(C,D) = trace(C*D)");
     }
     // get / set component
@@ -114,12 +114,12 @@ namespace {
       fix(id[0], id[1]);
       fix(id[2], id[3]);
       c.close(getComponent(C, id[0], id[1], id[2], id[3]), Cr(id[0], id[1], id[2], id[3]),
-              8 * u * f4::maxabs(Cr) + tiny, "C02.st2tost2.getComponent", "getComponent");
+              128 * u * f4::maxabs(Cr) + tiny, "C02.st2tost2.getComponent", "getComponent");
       const T x = static_cast<T>(c.sreal(sc, "x"));
       C4 G = C;
       setComponent<T>(G, id[0], id[1], id[2], id[3], x);
       const T4 Gr = f4::toT4(G, N, SYM, SYM);
-      const R tx = 8 * u * std::fabs(static_cast<R>(x)) + tiny;
+      const R tx = 128 * u * std::fabs(static_cast<R>(x)) + tiny;
       c.close(Gr(id[0], id[1], id[2], id[3]), x, tx, "C02.st2tost2.setComponent",
               "component after setComponent");
       c.close(Gr(id[1], id[0], id[3], id[2]), x, tx, "C02.st2tost2.setComponent",
@@ -204,7 +204,7 @@ namespace {
     // the rotation operator itself: Rot_ijkl s_kl = (r^T s r)_ij
     T4 Rot;
     REF_FOR4 Rot(i, j, k, l) = (Rm(k, i) * Rm(l, j) + Rm(l, i) * Rm(k, j)) / 2;
-    f4::cmp(c, C4(C4::fromRotationMatrix(r)), Rot, N, SYM, SYM, 16 * u,
+    f4::cmp(c, C4(C4::fromRotationMatrix(r)), Rot, N, SYM, SYM, 256 * u,
             "C02.st2tost2.fromRotationMatrix", "fromRotationMatrix(r)");
     // coherence: rotating operator and argument = rotating the result
     const S s = gen::toStensor<S>(gen::sym(c, N, 1.));
